@@ -1,7 +1,8 @@
 import Lean.Data.Json
 import QModel.Arith
 import QModel.Bytes
-open Lean Num Nd Arith
+import QModel.Recipe
+open Lean Num Nd Arith Cfg
 
 /-! JSON-lines driver: one request per line on stdin, one response per line on stdout. -/
 
@@ -74,6 +75,111 @@ def qParamsToJson (q : QParams) : Json :=
   Json.mkObj [("bits", toJson q.bits), ("qdim", match q.qdim with | some d => toJson d | none => Json.null),
               ("scale", fArrToJson q.scale), ("zp", iArrToJson q.zp), ("sym", toJson q.symmetric)]
 
+
+partial def toJ : Json → J
+  | .null => J.null
+  | .bool b => J.bool b
+  | .num n => J.num (if n.exponent = 0 then n.mantissa else n.mantissa / (10 ^ n.exponent : Nat))
+  | .str s => J.str s
+  | .arr a => J.arr (a.toList.map toJ)
+  | .obj kv => J.obj (kv.toList.map fun (k, v) => (k, toJ v))
+
+partial def ofJ : J → Json
+  | .null => Json.null
+  | .bool b => Json.bool b
+  | .num n => toJson n
+  | .str s => Json.str s
+  | .arr l => Json.arr (l.map ofJ).toArray
+  | .obj kv => Json.mkObj (kv.map fun (k, v) => (k, ofJ v))
+
+/-- ordered key/value list of a JSON object as sent by Python (`[[k, v], ...]`), because
+    `Lean.Json` objects do not preserve insertion order -/
+partial def toJOrdered : Json → J
+  | .arr a =>
+    -- encoded object: {"__obj": [[k,v],...]} is handled in `.obj`; plain arrays stay arrays
+    J.arr (a.toList.map toJOrdered)
+  | .obj kv =>
+    match kv.toList with
+    | [("__obj", .arr pairs)] =>
+      J.obj (pairs.toList.filterMap fun p => match p with
+        | .arr #[.str k, v] => some (k, toJOrdered v)
+        | _ => none)
+    | l => J.obj (l.map fun (k, v) => (k, toJOrdered v))
+  | j => toJ j
+
+/-- inverse encoding: objects as {"__obj": [[k,v],...]} so that key order is visible to Python -/
+partial def ofJOrdered : J → Json
+  | .arr l => Json.arr (l.map ofJOrdered).toArray
+  | .obj kv => Json.mkObj [("__obj", Json.arr (kv.map fun (k, v) => Json.arr #[Json.str k, ofJOrdered v]).toArray)]
+  | j => ofJ j
+
+def getTCfg (j : Json) : Except String (Option TCfg) := do
+  if j.isNull then return none
+  let bits ← j.getObjValAs? Int "bits"
+  let sym ← j.getObjValAs? Bool "sym"
+  let g ← j.getObjValAs? String "gran"
+  let d ← j.getObjValAs? String "dtype"
+  let bs ← j.getObjValAs? Int "block"
+  match Gran.ofStr? g, DT.ofStr? d with
+  | some gg, some dd => pure (some { bits := bits, symmetric := sym, gran := gg, dtype := dd, blockSize := bs })
+  | _, _ => throw "bad tcfg"
+
+def getOpCfg (j : Json) : Except String OpCfg := do
+  let a ← getTCfg (← j.getObjVal? "act")
+  let w ← getTCfg (← j.getObjVal? "weight")
+  let cps ← j.getObjValAs? String "cp"
+  let ed ← j.getObjValAs? Bool "ed"
+  let sk ← j.getObjValAs? Bool "sk"
+  match CP.ofStr? cps with
+  | some cp => pure { act := a, weight := w, cp := cp, explicitDeq := ed, skipChecks := sk }
+  | none => throw "bad cp"
+
+def rxTable (j : Json) : Except String (String → String → Bool) := do
+  let rows ← j.getObjValAs? (Array Json) "rx"
+  let tbl ← rows.toList.mapM fun r => do
+    match r with
+    | .arr #[.str re, .str sc, .bool b] => pure ((re, sc), b)
+    | _ => throw "bad rx row"
+  pure fun re sc => (tbl.find? (fun e => e.1.1 == re && e.1.2 == sc)).map (·.2) |>.getD false
+
+def recipeStep (rx : String → String → Bool) (reqW : Bool) (st : Recipe.State) (c : Json) :
+    Except String (Recipe.State × Json) := do
+  let k ← c.getObjValAs? String "k"
+  match k with
+  | "add" =>
+    let regex ← c.getObjValAs? String "regex"
+    let op ← c.getObjValAs? String "operation"
+    let alg ← c.getObjValAs? String "alg"
+    let cj ← c.getObjVal? "cfg"
+    if cj.isNull then
+      match Recipe.add st regex op none alg with
+      | .ok st' => pure (st', Json.str "ok")
+      | .error e => pure (st, Json.str (toString e))
+    else
+      let cfg ← getOpCfg cj
+      match mkOpCfg cfg with
+      | .error e => pure (st, Json.str ("ctor:" ++ toString e))
+      | .ok cfg => match Recipe.add st regex op (some cfg) alg with
+        | .ok st' => pure (st', Json.str "ok")
+        | .error e => pure (st, Json.str (toString e))
+  | "load" =>
+    let rj ← c.getObjVal? "recipe"
+    match toJOrdered rj with
+    | .arr l =>
+      match Recipe.load reqW l with
+      | (.ok st', _) => pure (st', Json.str "ok")
+      | (.error e, partialSt) => pure (partialSt, Json.str (toString e))
+    | _ => throw "recipe must be a list"
+  | "get" => pure (st, Json.arr ((Recipe.getRecipe st).map ofJOrdered).toArray)
+  | "resolve" =>
+    let op ← c.getObjValAs? String "opname"
+    let sc ← c.getObjValAs? String "scope"
+    let (alg, cfg) := Recipe.resolve rx st op sc
+    pure (st, Json.mkObj [("alg", Json.str alg), ("cfg", ofJOrdered cfg.toDict)])
+  | "need_cal" => pure (st, Json.bool (Recipe.needCalibration st))
+  | _ => throw s!"bad recipe cmd {k}"
+
+
 def okJson (j : Json) : Json := Json.mkObj [("ok", j)]
 def errJson (e : PyErr) : Json := Json.mkObj [("err", Json.str (toString e))]
 def pyToJson {α} (f : α → Json) : PyM α → Json
@@ -126,6 +232,43 @@ def handle (j : Json) : Except String Json := do
   | "f16" =>
       let xs ← getRatList j "data"
       pure (pyToJson (fun (l : List (List Nat)) => toJson l.flatten) (xs.mapM Bytes.castF16))
+  | "accepts" =>
+      let alg ← j.getObjValAs? String "alg"
+      let opn ← j.getObjValAs? String "opname"
+      let cfg ← getOpCfg (← j.getObjVal? "cfg")
+      match mkOpCfg cfg with
+      | .error e => pure (errJson e)
+      | .ok c => pure (okJson (Json.bool (Policy.accepts alg opn c)))
+  | "unroll_policy" =>
+      let same := (Policy.unrollPolicy Tables.policyRawJson) == Tables.defaultPolicyUnrolled
+      pure (okJson (Json.bool same))
+  | "cfg_roundtrip" =>
+      let cfg ← getOpCfg (← j.getObjVal? "cfg")
+      let reqW ← j.getObjValAs? Bool "requireWeight"
+      match mkOpCfg cfg with
+      | .error e => pure (errJson e)
+      | .ok c =>
+        let d := c.toDict
+        pure (Json.mkObj [("ok", Json.mkObj [("dict", ofJOrdered d),
+          ("back", match OpCfg.fromDict reqW d with
+            | .ok c' => Json.bool (c' == c)
+            | .error e => Json.str (toString e))])])
+  | "from_dict" =>
+      let reqW ← j.getObjValAs? Bool "requireWeight"
+      match OpCfg.fromDict reqW (toJOrdered (← j.getObjVal? "dict")) with
+      | .ok c => pure (okJson (ofJOrdered c.toDict))
+      | .error e => pure (errJson e)
+  | "recipe_run" =>
+      let rx ← rxTable j
+      let reqW ← j.getObjValAs? Bool "requireWeight"
+      let cmds ← j.getObjValAs? (Array Json) "cmds"
+      let mut st : Recipe.State := []
+      let mut outs : Array Json := #[]
+      for c in cmds do
+        let (st', o) ← recipeStep rx reqW st c
+        st := st'
+        outs := outs.push o
+      pure (okJson (Json.arr outs))
   | _ => throw s!"unknown op {op}"
 
 end Drv
